@@ -195,8 +195,15 @@ class Agent(dbus.service.Object):
             self.stop()
             return True
 
-        for hdl in self._handlers:
-            hdl.terminate()
+        for hdl in tuple(self._handlers):
+            try:
+                hdl.terminate()
+            except RuntimeError as err:
+                # no session (yet) which could be terminated gracefully
+                self._logger.info('Closing instead of terminating: %s', err)
+                hdl.close()
+        if not self._handlers:
+            return True
         self._logger.info('Waiting on sessions to terminate')
         return False
 
